@@ -131,11 +131,24 @@ func readCommitOffsetOf(d []rawKV) int64 {
 // runC07: a crash image (database after exactly k batch commits + the WAL as of a later instant) of an RF=1 leader
 // with 1-4 writers in flight; the image must equal the in-order application of entries 0..c, and the restarted
 // node must end up equal to the application of the whole log.
-func runC07(t *rapid.T) {
+func runC07(t *rapid.T) { runReplay(t, "C07", false) }
+
+// runC13Replay: the same crash-and-replay scenario with requests a client can put on the wire but a well-behaved
+// library would not build (gen.HostileRequest, including strings that are not valid UTF-8): whatever the leader
+// accepted into its log must be replayable by BecomeLeader after a crash, and by a fold over a fresh database.
+func runC13Replay(t *rapid.T) { runReplay(t, "C13", true) }
+
+func runReplay(t *rapid.T, prop string, hostile bool) {
 	root := mkTemp(t, "c07-")
 	defer os.RemoveAll(root)
 	dirA := filepath.Join(root, "a")
-	n, err := newNode(dirA, rapid.SampledFrom([]int32{4096, 65536}).Draw(t, "segSize"))
+	segSize := rapid.SampledFrom([]int32{4096, 65536}).Draw(t, "segSize")
+	if hostile {
+		// an entry must fit into one WAL segment (a request of 50 puts with 1.8 KB keys does not fit into the small
+		// segments used to force rollovers; production segments are far larger than the maximum message size)
+		segSize = 1 << 20
+	}
+	n, err := newNode(dirA, segSize)
 	if err != nil {
 		t.Fatalf("node: %v", err)
 	}
@@ -148,8 +161,18 @@ func runC07(t *rapid.T) {
 	nReq := rapid.IntRange(2, 14).Draw(t, "nRequests")
 	writers := rapid.IntRange(1, 4).Draw(t, "writers")
 	var reqs []*proto.WriteRequest
+	badUTF8, unusual := false, false
 	for i := 0; i < nReq; i++ {
-		r := gen.WriteRequest(t, m, gen.ReqOpts{Pool: pool, IndexNames: []string{"idx"}, SeqPrefix: []string{"sq"}, Tag: newTag})
+		var r *proto.WriteRequest
+		if hostile && rapid.IntRange(0, 3).Draw(t, "hostile") > 0 {
+			var u bool
+			r, u = gen.HostileRequest(t, pool, nil, newTag)
+			unusual = unusual || u
+			badUTF8 = badUTF8 || gen.HasBadUTF8(r)
+			reqs = append(reqs, r)
+			continue
+		}
+		r = gen.WriteRequest(t, m, gen.ReqOpts{Pool: pool, IndexNames: []string{"idx"}, SeqPrefix: []string{"sq"}, Tag: newTag})
 		for _, p := range r.Puts {
 			// the requests are drawn up front (the model is not advanced): keep sequence puts well-formed whatever
 			// the state will be, i.e. always two deltas
@@ -201,7 +224,7 @@ func runC07(t *rapid.T) {
 	}
 	n.kvF.setCommitHooks(nil, nil)
 	if e := werr.Load(); e != nil {
-		t.Fatalf("C07: write failed on a healthy RF=1 leader: %v", e)
+		t.Fatalf("%s: write failed on a healthy RF=1 leader: %v; requests=%s", prop, e, fmtReqs(reqs))
 	}
 	if imgErr != nil {
 		t.Fatalf("harness: image: %v", imgErr)
@@ -230,7 +253,7 @@ func runC07(t *rapid.T) {
 	}
 	pkv, err := pf.NewKV("ns", shardId)
 	if err != nil {
-		t.Fatalf("C07: the crash image does not open: %v; %s", err, desc)
+		t.Fatalf("%s: the crash image does not open: %v; %s", prop, err, desc)
 	}
 	imgDump, err := dumpKV(pkv)
 	_ = pkv.Close()
@@ -243,14 +266,17 @@ func runC07(t *rapid.T) {
 		last = entries[len(entries)-1].Offset
 	}
 	if c > last {
-		t.Fatalf("C07: the image's commit offset %d is ahead of the log (last offset %d); %s", c, last, desc)
+		t.Fatalf("%s: the image's commit offset %d is ahead of the log (last offset %d); %s", prop, c, last, desc)
 	}
 	want, err := foldLog(filepath.Join(root, "fold-c"), entries, c)
 	if err != nil {
+		if hostile {
+			t.Fatalf("C13: a fresh replica cannot apply the log the leader accepted: %v; %s requests=%s", err, desc, fmtReqs(reqs))
+		}
 		t.Fatalf("harness: fold: %v", err)
 	}
 	if d := diffDumps(decodedDump(imgDump), want); d != "" {
-		t.Fatalf("C07: the database after %d commits (commit offset %d) differs from applying entries 0..%d in order to an empty database: %s; %s", k, c, c, d, desc)
+		t.Fatalf("%s: the database after %d commits (commit offset %d) differs from applying entries 0..%d in order to an empty database: %s; %s", prop, k, c, c, d, desc)
 	}
 	// ---- restart over the image: replay must resume at c+1 and end at the state of the whole log
 	dirB := filepath.Join(root, "b")
@@ -262,12 +288,12 @@ func runC07(t *rapid.T) {
 	}
 	nb, err := newNode(dirB, n.segSize)
 	if err != nil {
-		t.Fatalf("C07: node does not start over the crash image: %v; %s", err, desc)
+		t.Fatalf("%s: node does not start over the crash image: %v; %s", prop, err, desc)
 	}
 	defer nb.close()
 	nb.term = n.term
 	if err := nb.lead(true); err != nil {
-		t.Fatalf("C07: node cannot become leader over the crash image: %v; %s", err, desc)
+		t.Fatalf("%s: node cannot become leader over the crash image (replay of entries %d..%d): %v; %s requests=%s", prop, c+1, last, err, desc, fmtReqs(reqs))
 	}
 	bDump, err := dumpKV(nb.kvF.last())
 	if err != nil {
@@ -278,10 +304,10 @@ func runC07(t *rapid.T) {
 		t.Fatalf("harness: fold: %v", err)
 	}
 	if d := diffDumps(decodedDump(bDump), wantAll); d != "" {
-		t.Fatalf("C07: after restart over the image (commit offset %d) and replay, the database differs from applying the whole log once, in order: %s; %s", c, d, desc)
+		t.Fatalf("%s: after restart over the image (commit offset %d) and replay, the database differs from applying the whole log once, in order: %s; %s", prop, c, d, desc)
 	}
 	if got := readCommitOffsetOf(bDump); got != last {
-		t.Fatalf("C07: after replay the commit offset is %d, the log ends at %d; %s", got, last, desc)
+		t.Fatalf("%s: after replay the commit offset is %d, the log ends at %d; %s", prop, got, last, desc)
 	}
 	labels := []string{}
 	if c < last && c >= 0 {
@@ -290,7 +316,30 @@ func runC07(t *rapid.T) {
 	if writers > 1 {
 		labels = append(labels, "concurrent_writers")
 	}
+	if hostile {
+		if badUTF8 {
+			labels = append(labels, "non_utf8_string")
+		}
+		if unusual {
+			labels = append(labels, "unusual_request")
+		}
+		// non-trivial for C13: hostile content was actually replayed by BecomeLeader
+		evid.Case("C13", c < last && (unusual || badUTF8), "replay "+desc+" "+gen.FormatRequest(reqs[len(reqs)-1]), labels...)
+		return
+	}
 	evid.Case("C07", (c < last && c >= 0) || writers > 1, desc+" "+gen.FormatRequest(reqs[0]), labels...)
+}
+
+func fmtReqs(reqs []*proto.WriteRequest) string {
+	var out []string
+	for i, r := range reqs {
+		out = append(out, fmt.Sprintf("#%d %s", i, gen.FormatRequest(r)))
+	}
+	return strings.Join(out, " | ")
+}
+
+func TestC13_Replay(t *testing.T) {
+	rapid.Check(t, runC13Replay)
 }
 
 func TestC07_CrashReplay(t *testing.T) {
